@@ -25,6 +25,8 @@ PARTIAL = ["pairwise alignment (pwaligner works on clones stored in its fields) 
            "`copies_own_data` establishes syntactically; slices handed out by accessors (SequenceChar) are outside the property"]
 
 NT = "ACGTacgtN-"
+# RNA (U/u: goalign's complement table is not an involution on them) and the IUPAC ambiguity codes in both cases
+NTX = "ACGUacguTtRYSWKMBDHVNrykmn-"
 AA = "ARNDCQEGHILKMFPSTWYVX-"
 
 
@@ -36,7 +38,7 @@ def gen(rng, tier):
     N = 120 if tier == "quick" else 1200
     for _ in range(N):
         alpha = rng.choice([1, 1, 0])
-        sym = AA if alpha == 0 else NT
+        sym = AA if alpha == 0 else (NTX if rng.random() < 0.35 else NT)
         n = rng.randint(1, 5)
         L = rng.randint(1, 12)
         gaps = "-" * rng.choice([0, 0, 3, 8])
@@ -53,6 +55,10 @@ def gen(rng, tier):
                 yield Case("purity", [a2, rs, q], big, "purity-%s-alphabet%d" % (q, a2))
         for c in ("clone", "clonebag", "subalign", "selectsites", "transpose", "bootstrap", "unalign", "sample", "randsub"):
             yield Case("alias", [alpha, rs, c], big, "alias-" + c)
+        # growing the derived alignment in place (every row is appended to): spare capacity of a row must not lie inside
+        # another row or inside the source
+        for c in ("clone", "subalign", "selectsites", "transpose", "bootstrap", "randsub"):
+            yield Case("aliasappend", [alpha, rs, c], big, "aliasappend-" + c)
         # the same constructors on windows / site lists of every shape (a run of consecutive sites, scattered,
         # reversed, repeated, a single site; interior windows; shorter random sub-alignments)
         if L >= 2:
@@ -64,6 +70,9 @@ def gen(rng, tier):
                 yield Case("alias", [alpha, rs, "selectsites", ",".join(map(str, sl))], big, "alias-selectsites-list")
             st = rng.randrange(L)
             yield Case("alias", [alpha, rs, "subalign", "%d,%d" % (st, rng.randint(1, L - st))], big, "alias-subalign-window")
+            yield Case("aliasappend", [alpha, rs, "subalign", "%d,%d" % (st, rng.randint(1, L - st))], big, "aliasappend-subalign-window")
+            yield Case("aliasappend", [alpha, rs, "selectsites", ",".join(map(str, lists[0]))], big, "aliasappend-selectsites-run")
+            yield Case("aliasappend", [alpha, rs, "randsub", "%d,%d" % (rng.randint(1, L), rng.randint(0, 1))], big, "aliasappend-randsub-len")
             yield Case("alias", [alpha, rs, "randsub", "%d,%d" % (rng.randint(1, L), rng.randint(0, 1))], big, "alias-randsub-len")
         for mode in ("halves", "codon"):
             yield Case("aliassplit", [alpha, rs, mode], big and L >= 3, "alias-split-" + mode)
@@ -73,8 +82,8 @@ def matches(c):
     if c.model == c.impl:
         return True
     # sharing operations: only the sharing itself is modelled
-    if c.op == "alias" and c.model == "shared=1":
+    if c.op in ("alias", "aliasappend") and c.model == "shared=1":
         return (c.impl or "").startswith("shared=1") or c.impl == "err"
-    if c.op == "alias" and c.impl == "err":
+    if c.op in ("alias", "aliasappend") and c.impl == "err":
         return True
     return False
